@@ -1,4 +1,5 @@
 use crate::common::Tier;
+pub mod c01;
 pub mod c02;
 pub mod c18;
 pub mod c19;
@@ -6,6 +7,7 @@ pub mod c20;
 
 pub fn run(id: &str, tier: Tier) -> i32 {
     match id {
+        "C01" => c01::run(tier),
         "C02" => c02::run(tier),
         "C18" => c18::run(tier),
         "C19" => c19::run(tier),
@@ -31,6 +33,7 @@ pub fn replay(id: &str, path: &str) -> i32 {
     let text = std::fs::read_to_string(path).expect("cannot read replay file");
     let v: serde_json::Value = serde_json::from_str(&text).expect("replay file is not JSON");
     match id {
+        "C01" => c01::replay(&v),
         "C02" => c02::replay(&v),
         "C19" => c19::replay(&v),
         "C20" => c20::replay(&v),
